@@ -276,6 +276,11 @@ def gen_cases(rng, tier):
         names = rng.sample(NAMES, rng.randint(2, 3))
         cases.append({'kind': 'step', 'proc': proc, 'names': names, 'sel': ['list', [names[0]]], 'dup': True})
         cases.append({'kind': 'step', 'proc': proc, 'names': names, 'sel': ['idx', 0], 'dup': True})
+    # systematically: the first resource selected, unselected ones after it (read both in turn and with all resources taken first)
+    for proc in procs:
+        names = rng.sample(NAMES, 3)
+        cases.append({'kind': 'step', 'proc': proc, 'names': names, 'sel': ['list', [names[0]]]})
+        cases.append({'kind': 'step', 'proc': proc, 'names': names, 'sel': ['list', [names[0], names[1]]]})
     # systematically: selections that are not adjacent in the package (steps that treat the selection as a run of
     # consecutive resources must refuse them or leave the resource in between alone)
     for proc in procs:
@@ -331,7 +336,10 @@ def run_impl(case):
     alls = canon(run_stream(res, pre + [step_all]))
     if case.get('dup'):
         pre = [DF.duplicate(source=names[0], target_name=names[-1], target_path=names[-1] + '.csv', duplicate_to_end=True)]
-    out = canon(run_stream(res, pre + [step_sel], rerun=(proc != 'printer')))      # the printer's output is collected in one log
+    # (row- and field-level steps that chain lazily: also with all resources taken before any row is read)
+    lazy = proc in ('set_type', 'filter_rows', 'find_replace', 'add_computed_field', 'validate', 'deduplicate', 'update_resource',
+                    'update_schema', 'set_primary_key', 'unpivot', 'sort_rows') and not case.get('dup')
+    out = canon(run_stream(res, pre + [step_sel], rerun=(proc != 'printer'), collect=lazy))      # the printer's output is collected in one log
     r = {'base': base, 'all': alls, 'out': out, 'printed': log}
     if not case.get('dup') and proc != 'printer' and 'error' not in out:
         # a step object that has already run on this package, used again in a flow over a larger package, must behave
